@@ -557,7 +557,7 @@ func main() {
 	os.MkdirAll(workdir, 0o755)
 	defer os.RemoveAll(workdir)
 	rng := o.Rng()
-	res := hx.NewResult("C15", "histories: initial cluster (3 namespaces, secrets tls-1/tls-2/tls-bad/tls-absent with content from 5 real ECDSA certificates or malformed, up to 5 ingresses with 0-2 rule hosts and 0-2 tls blocks over 7 hosts incl. 2 wildcards with exact siblings, foreign ns/name references) + 1..4 batches of secret add/replace/delete and ingress add/replace/delete, some with a second event for one object; observed per reconciliation: crt-list entries (content hashes) and the SNI-selected certificate for 14 names; non-trivial = at least one name served with a custom certificate and at least one partial reconciliation; distinct by history text")
+	res := hx.NewResult("C15", "histories: initial cluster (3 namespaces, secrets tls-1/tls-2/tls-bad/tls-absent with content from 5 real ECDSA certificates or malformed, up to 5 ingresses with 0-2 rule hosts and 0-2 tls blocks over 7 hosts incl. 2 wildcards with exact siblings, empty secretName, foreign ns/name references) + 1..4 batches of secret add/replace/delete and ingress add/replace/delete, some with a second event for one object; wider inputs add annotations (ssl-always-add-https, ssl-passthrough, auth-tls-secret), --default-ssl-certificate with that secret replaced/removed/broken, --allow-cross-namespace, Gateway API gateways with two HTTPS listeners (1-2 certificateRefs, local / cross-namespace / absent, certificates whose SAN matches a host or not) changed and deleted, socket mode; corpus: replicated secret rotated / rolled back / deleted / re-created, near-colliding pem file names; observed per reconciliation: crt-list entries (content hashes, options) and the SNI-selected certificate for 14+ names, raw routing of ssl-passthrough names, the hosts of the haproxy model; non-trivial = at least one name served with a custom certificate and at least one partial reconciliation; distinct by input text")
 	os.MkdirAll(workdir, 0o755)
 	cw := hx.NewCaseWriter(o, res, casePrelude(), "kcase", 25)
 
@@ -576,9 +576,9 @@ func main() {
 		for _, in := range loadCorpus() {
 			jobs = append(jobs, job{in: in, corpus: true, corr: !o.Search})
 		}
-		nCorr := o.Count(300, 2500)
-		nWide := o.Count(100, 1500)
-		nSock := o.Count(50, 600)
+		nCorr := o.Count(210, 2500)
+		nWide := o.Count(90, 1500)
+		nSock := o.Count(40, 600)
 		if o.Search {
 			nCorr, nWide, nSock = o.Count(1500, 6000), o.Count(500, 2000), 200
 		}
